@@ -204,11 +204,43 @@ Theorem compile_program_correct_F3 : forall fuel p args,
       exists k, Compile3.run_vm p k args = ValueVM3.VExc ex printed
   | OFuel | OStuck => True
   end.
-Proof. exact (fun fuel p args H => CompileCorrect3Prog.compile_program_correct_F3 p args H fuel). Qed.
+Proof. exact (fun fuel p args H => CompileCorrect3Prog.compile_program_correct_F p args 3 H fuel). Qed.
 Print Assumptions compile_program_correct_F3.
 
-(* expression level, all three levels: code embedded in a function of a program laid out as the
-   function table says (pcode_at), any related states, any frame registers.  Hypotheses on the
+(* ==== stage 5: catch clauses (fragment F5 = F3 + `catch (name) { … }` / `catch { … }`) =============
+   Model: Compile3.compile_func lays a function out in segments — FUNC_DEF body LINE RET LABEL, then
+   per clause CLEAR_STACK nparams; [INT no; PUSH_EXCEPT; OP_EQ_INT; JUMPZ next;] block; RET; LABEL —
+   followed by RETHROW; `exc_table` has one entry per segment (its addresses -> its LABEL).
+   ValueVM3: a fault is dispatched to the handler of its address; CLEAR_STACK drops pending MARK
+   headers, temporaries and locals and keeps the parameters; PUSH_EXCEPT pushes machine->exception;
+   a clause that does not match jumps to the next one, a fault inside a clause goes to the next
+   clause, after the last one RETHROW re-raises at the caller's CALL.  (level 5 of the tie.)
+   F5 (`Compile3.prog_in_F5`): F3 + functions with catch clauses whose blocks are in the fragment
+   over the parameters only; a function WITH catch clauses has no self call in tail position (for a
+   clause that faults in a later iteration Src/Eval.v, which has no tail-call elimination, would run
+   the clauses of the replaced activations; the implementation does not).  Closures (stage 4) are
+   not part of F5.
+   The theorem carries property C03 (a fault reaches the first matching catch clause of the
+   innermost active function that has one, an exception raised inside a clause is offered to the
+   later clauses of the same function only, an uncaught one to the caller) from the evaluator
+   (Src/Eval.v `handlers`, Src/EvalCatch.v) down to the machine code. *)
+Theorem compile_program_correct_F5 : forall fuel p args,
+  Compile3.prog_in_F5 p = true ->
+  match run_program fuel p args with
+  | OResult v printed =>
+      exists k z, Compile3.run_vm p k args = ValueVM3.VRet z printed /\ CompileCorrect3Base.val_rel v z
+  | OUnhandled ex printed =>
+      exists k, Compile3.run_vm p k args = ValueVM3.VExc ex printed
+  | OFuel | OStuck => True
+  end.
+Proof. exact (fun fuel p args H => CompileCorrect3Prog.compile_program_correct_F p args 5 H fuel). Qed.
+Print Assumptions compile_program_correct_F5.
+
+(* expression level, all levels: code embedded in a program laid out as the function table says
+   (pcode_at), any related states, any frame registers.  On a fault the exception has been dispatched
+   (ip = the handler of the faulting address, stores still related); fp is the one of the start
+   state when the handler is a bare LABEL; RETHROW, otherwise (a catch clause follows: CLEAR_STACK
+   resets it) a MARK may still be pending.  Hypotheses on the
    program: its functions are in the fragment and have pairwise different names. *)
 Theorem compile_expr_correct_frames : forall (X : xinfo) (G : ginfo) (lv : nat),
   (forall fd, In fd (g_funcs G) -> Compile3.func_in_F (g_sigs G) lv fd = true) ->
@@ -231,11 +263,14 @@ Theorem compile_expr_correct_frames : forall (X : xinfo) (G : ginfo) (lv : nat),
         ValueVM3.v_out s' = out st' /\ v_fr s' = v_fr s
     | RExc ex =>
       ex = ExDivision /\
-      exists s' fip, ValueVM3.star X prog s s' /\
+      exists s' fip m' fp', ValueVM3.star X prog s s' /\
         (pc <= fip < pc + length (Compile3.compile_expr (map fd_name (g_funcs G)) L ce e))%nat /\
-        ValueVM3.v_ip s' = hsearch (x_tab X) fip 0 /\ v_fr s' = set_exc (v_fr s) ExDivision /\
+        ValueVM3.v_ip s' = hsearch (x_tab X) fip 0 /\
+        v_fr s' = set_exc (set_fp (v_fr s) fp') ExDivision /\
+        (is_rethrow prog (ValueVM3.v_ip s') = true -> fp' = r_fp (v_fr s)) /\
         (exists t top, ValueVM3.v_stk s' = t :: top ++ ValueVM3.v_stk s) /\
-        ValueVM3.v_out s' = out st'
+        ValueVM3.v_out s' = out st' /\
+        CompileCorrect3Base.MS m' st' (ValueVM3.v_heap s') /\ CompileCorrect3Base.ext m m'
     | _ => True
     end.
 Proof. exact CompileCorrect3.compile_expr_correct_frames. Qed.
@@ -284,3 +319,32 @@ Proof. vm_compute. split; reflexivity. Qed.
 (* ex3 contains a self tail call (sum): `no_self_tail` is false for it, the theorem covers it *)
 Example ex3_has_tail_call : Compile3.no_self_tail ex3 = false.
 Proof. vm_compute. reflexivity. Qed.
+
+(* a program of F5:
+     func dv(a : int, b : int) -> int { let t = a * 2; print(t / b) + 1 }
+       catch (division_by_zero) { print(a); let u = a + 100; u / (b - b) }    (the clause faults itself)
+       catch (index_out_of_bounds) { 7 }                                       (never matches)
+       catch { print(b); -1 }
+     func main(v : int) -> int { dv(v, 2) + dv(v, 0) } catch (division_by_zero) { print(v + 1000); -5 } *)
+Definition dv5_fd : fdef := FDef 1%N [(2%N, false, TInt); (3%N, false, TInt)] TInt
+  [ILet 4%N (EBin Mul (EVar 2%N) (EInt 2));
+   IExpr (EBin Add (EPrint (EBin Div (EVar 4%N) (EVar 3%N))) (EInt 1))]
+  [(ExDivision, [IExpr (EPrint (EVar 2%N)); ILet 5%N (EBin Add (EVar 2%N) (EInt 100));
+                 IExpr (EBin Div (EVar 5%N) (EBin Sub (EVar 3%N) (EVar 3%N)))]);
+   (ExIndexOob, [IExpr (EInt 7)])]
+  (Some [IExpr (EPrint (EVar 3%N)); IExpr (EInt (-1))]).
+Definition main5_fd : fdef := FDef 0%N [(6%N, false, TInt)] TInt
+  [IExpr (EBin Add (ECall (EVar 1%N) [EVar 6%N; EInt 2]) (ECall (EVar 1%N) [EVar 6%N; EInt 0]))]
+  [(ExDivision, [IExpr (EPrint (EBin Add (EVar 6%N) (EInt 1000))); IExpr (EInt (-5))])] None.
+Definition ex5 : program := {| p_recs := []; p_funcs := [dv5_fd; main5_fd]; p_main := 0%N |}.
+
+Example ex5_in_F5 : Compile3.prog_in_F5 ex5 = true /\ Compile3.prog_in_F3 ex5 = false.
+Proof. vm_compute. split; reflexivity. Qed.
+
+(* 429 instructions, like the real module.  On 4: dv(4, 2) prints 4 and gives 5; in dv(4, 0) the body
+   faults, the first clause prints 4 and faults itself (u / 0), the second clause names another
+   exception, the catch-all prints 0 and gives -1; 5 + -1 = 4.  The evaluator says the same. *)
+Example ex5_runs :
+  Compile3.run_vm ex5 3000 [4] = ValueVM3.VRet 4 [4; 4; 0] /\
+  run_program 300 ex5 [4] = OResult (CInt 4) [4; 4; 0].
+Proof. vm_compute. split; reflexivity. Qed.
